@@ -79,7 +79,7 @@ impl WorldB {
 
     /// The challenge the client object in `slot` currently holds: that of the first Challenge datagram delivered to it
     /// while it was requesting (per address attempt).
-    fn slot_challenge(&self, slot: usize) -> Option<(u64, u32)> {
+    pub(super) fn slot_challenge(&self, slot: usize) -> Option<(u64, u32)> {
         // last Challenge datagram genuinely delivered to this slot in its current epoch that found it requesting
         self.ledger
             .iter()
